@@ -181,7 +181,7 @@ func TestC09(t *testing.T) {
 	grid := c09Grid()
 	RunCheck(t, CheckSpec{Prop: "C09",
 		Rule:        fmt.Sprintf("stop-point grid: role {candidate in its first Create, follower, leader, successor = follower that acquires the key after the leader's graceful shutdown (log-line stops only), successor-takeover = takeover-enabled follower racing a lower-priority one for the key after the graceful shutdown of a leader that outranked both} x operation {Create, heartbeat Update, validation/periodic Get, Watch set-up} x n-th such operation (0..2) x phase {just issued, applied-not-answered, about to return, timer boundary (1ns before / at / 1ns after a heartbeat or periodic-check timer), inside one of the library's own log calls (22 messages: the stop runs between the two steps around that line)} x %d stop variants (Stop; StopWithContext x DeleteKey x WaitForDemote x Timeout {0, 50ms, 6s} x ctx {background, deadline, cancelled mid-call}) x OnDemote duration {0, 50ms, 2s} x outcome {answered, request unanswered for 5s / 12s / beyond the run} x heartbeat interval {100ms, 300ms, 1s, 20s} = %d cells, each combined with a follow-up {none, stop again, StopWithContext then Stop, concurrent double stop, stop-then-Start, stop-then-new-object}; thorough enumerates every cell (sharded) and adds generated latencies/companions; quick runs a seeded sample with generated latencies. Oracle after each stop call that returned nil: no claim-up edge, IsLeader()==false at every later snapshot, no OnPromote, no store operation issued (until a later Start), bounded duration of the call, with DeleteKey by the owner no own version live at return; process-level: no panic, no deadlock, no library goroutine left after teardown. Non-trivial = a stop that began while a store operation of that object was in flight; distinct by plan hash.", len(c09Variants), len(grid)),
-		Assumptions: []string{"Start is never issued while a stop call on the same object has not returned (it is issued on objects whose stop call returned an error or gave up waiting: the WaitGroup reuse this used to trigger was repaired); StopWithContext is allowed 2 x effective time-out + one store round trip (wait for goroutines, Delete, wait for OnDemote)"},
+		Assumptions: []string{"in this grid Start is not issued while a stop call on the same object has not returned (the general generators do issue such Starts; C08 has a known finding about them); StopWithContext is held to its effective time-out (Timeout, else the context's deadline, else 5s) + 1ms as a whole"},
 		Fixed: func() []*Plan {
 			var ps []*Plan
 			if tier() != "thorough" {
